@@ -18,10 +18,9 @@ def run(ctx):
     thorough = ctx.tier == "thorough" or not ctx.proof_ok
     rule, samples = L.run_seq(ctx, res, thorough)
     crule, csamples, guard_losses = L.run_conc(ctx, res, thorough)
-    if guard_losses:
-        # log calls made while ANOTHER producer was inside qb_log_real_va_: turned away by the process-wide
-        # in_logger guard, silently.  Proposed known finding (guard of C16_no_silent_loss_single_producer: one producer).
-        res.known_hits[KNOWN_GUARD] = guard_losses
+    # log calls turned away by a process-wide in_logger guard are violations (repaired by fixes/C16-5; the monitor
+    # names them); the count is kept in the evidence
+    res.extra["conc_in_logger_guard_losses"] = guard_losses
     res.rule = rule + "; " + crule
     res.samples = samples + csamples
     res.extra["monitor"] = ("independent Python statements of C16 over the implementation log (vlib/logthr.py: "
